@@ -37,6 +37,11 @@ pub fn run(tier: Tier, seed: u64) -> i32 {
         let p3 = Profile { read_faults: true, ..prof.clone() };
         s.search("world-read-faults", "world", 10000, move || scenario_strategy(p3.clone()), &case);
     }
+    {
+        // a failed attempt followed by further HTLCs of the hash, while the failure-notification service never returns
+        use proptest::strategy::Strategy;
+        s.search("world-retry-while-notification-stalls", "world", tier.pick(100, 2000), || crate::props::worldprops::after_failed_attempts_strategy().prop_map(|mut x| { x.notif_stall = true; x }), &case);
+    }
     crate::e2e::c06_e2e(&mut s);
     crate::props::par::par_phase(&mut s, "C06");
     if tier == Tier::Thorough {
